@@ -65,7 +65,7 @@ def plan(tier, prop):
                             "bmp_board_specific_connection", "scp_failure",
                             "context_object_reused",
                             "context_object_reentered_while_active",
-                            "bmp_board_iterable"],
+                            "bmp_board_iterable", "discovery_under_faults"],
         "knob_ranges": {"boards": [1, 3, 6, 12], "root_offset": "0-11 each",
                         "eth_down": "0-30 % of boards",
                         "depth": "0-4", "items": "1-12"},
@@ -829,16 +829,35 @@ class CtxEngine(object):
             discovered = "no"
             if t.draw(4):
                 was = c.policy.active
-                c.policy.active = False      # discovery itself is C14's topic
+                # mostly on a quiet network; sometimes with the run's faults
+                quiet = bool(t.draw(3))
+                if quiet:
+                    c.policy.active = False
+                else:
+                    w.probe("discovery_under_faults")
                 st, n = rigcall(w, (c.scp.TimeoutError,
                                     c.scp.FatalReturnCodeError),
                                 c.mc.discover_connections)
                 c.policy.active = was
                 discovered = "%s:%r" % (st, n)
+                if st == "exc":
+                    c.settle()
                 if st == "ok":
                     up = sum(1 for e in self.eth_positions
                              if m.chips[e].eth_up)
-                    if n != up:
+                    if n != len(c.mc.connections) - 1:
+                        w.violate("DISC", "discover_connections reports %r "
+                                  "new connections but holds %d"
+                                  % (n, len(c.mc.connections) - 1),
+                                  kind="discover-count")
+                    for xy in c.mc.connections:
+                        if xy is not None and not (
+                                xy in self.eth_ip and m.chips[xy].eth_up):
+                            w.violate("DISC", "connection recorded for %r "
+                                      "which is not a board's working "
+                                      "Ethernet chip" % (xy,),
+                                      kind="discover-bogus")
+                    if (quiet or c.clean()) and n != up:
                         w.violate("DISC", "discover_connections found %r new "
                                   "connections; %d boards have a working "
                                   "Ethernet link" % (n, up),
